@@ -401,15 +401,12 @@ Proof.
     + rewrite length_upd, app_length, repeat_length. unfold n. lia.
     + unfold cell_at; cbn [m_state m_values m_keys].
       rewrite length_upd, app_length, repeat_length.
-      rewrite (collect_app _ (length (m_state s)) n 0).
-      rewrite (collect_none _ n (0 + length (m_state s))) by (intros; apply cell_at_ge; lia).
-      rewrite app_nil_r. fold (cell_at s).
+      fold (cell_at s).
       assert (Hext : collect (cell_at s) 0 (length (m_state s)) = collect (cell_at s) 0 (length (m_state s) + n)).
       { rewrite collect_app.
         rewrite (collect_none _ n (0 + length (m_state s))) by (intros; apply cell_at_ge; lia).
         rewrite app_nil_r. auto. }
-      rewrite <- (collect_app _ (length (m_state s)) n 0) at 1.
-      rewrite Hext. rewrite sm_put_collect by lia. apply collect_ext. intros j Hj.
+      rewrite Hext. rewrite sm_put_collect by lia. symmetry. apply collect_ext. intros j Hj.
       unfold fupd. destruct (Nat.eqb_spec j i) as [->|Hne].
       * unfold cell3. rewrite !nth_error_upd_eq by (rewrite app_length, repeat_length; lia).
         rewrite nth_error_grow. rewrite Hlv.
@@ -434,4 +431,853 @@ Proof.
   destruct (is_mapper (m_ty s)).
   - apply m_set_refines; auto.
   - destruct (m_default s); try (apply m_set_refines; auto). cbn [fst snd]. auto.
+Qed.
+
+(* ---- del_key ---- *)
+Lemma m_del_key_refines : forall s i, wf s ->
+  wf (fst (m_del_key s i)) /\ abs (fst (m_del_key s i)) = fst (sp_del_key (abs s) i) /\
+  snd (m_del_key s i) = snd (sp_del_key (abs s) i).
+Proof.
+  intros s i Hwf. pose proof Hwf as (Hlv & Hlk & Hz & Hk & Hki & Hf).
+  unfold m_del_key, sp_del_key. cbn [abs sp_cap]. fold (abs s).
+  destruct (Nat.ltb_spec i (length (m_state s))) as [Hi|Hi].
+  2:{ rewrite setitem_ge by lia. cbn [fst snd]. auto. }
+  rewrite !setitem_lt by lia. cbn [fst snd]. split; [|split; [|reflexivity]].
+  - unfold wf, with_lists; cbn [m_values m_state m_keys m_ty m_free]. rewrite !length_upd.
+    split; [lia|]. split; [lia|]. split; [|split; [|split]]; auto.
+    + intros j Hj. destruct (Nat.eq_dec j i) as [->|Hne].
+      * apply nth_error_upd_eq. lia.
+      * rewrite nth_error_upd_neq in * by auto. auto.
+    + intros j m Hj Hm. destruct (Nat.eq_dec j i) as [->|Hne].
+      * rewrite nth_error_upd_eq in Hj by lia. congruence.
+      * rewrite nth_error_upd_neq in * by auto. eauto.
+    + intros j k' Hj. destruct (Nat.eq_dec j i) as [->|Hne].
+      * rewrite nth_error_upd_eq in Hj by lia. discriminate.
+      * rewrite nth_error_upd_neq in Hj by auto. eauto.
+  - apply abs_eq; auto; unfold with_lists; cbn [m_state m_values m_keys]. apply length_upd.
+    unfold cell_at at 1; cbn [m_state m_values m_keys].
+    apply abs_del.
+    + apply length_upd.
+    + intros j Hj. apply cell3_upd_neq with (i := i); auto; apply nth_error_upd_neq; auto.
+    + unfold cell3. rewrite nth_error_upd_eq by lia. auto.
+Qed.
+
+(* ---- reads ---- *)
+Lemma m_get_refines : forall s i, wf s -> m_get s i = sp_get (abs s) i.
+Proof.
+  intros s i Hwf. unfold m_get, sp_get. rewrite sm_get_abs. cbn [abs sp_cap sp_ty].
+  destruct (Nat.ltb_spec i (length (m_state s))) as [Hi|Hi].
+  2:{ rewrite nth_error_None_ge; auto. }
+  destruct (cell_view s i Hwf Hi) as (m & v & ko & Em & Ev & Eko & [(-> & -> & Ec)|(Hm & k & -> & Hk & Ec)]);
+    rewrite Em, Ec.
+  - rewrite Ev. auto.
+  - cbn [sl_set sl_val]. destruct m; try congruence; rewrite ?Ev; auto.
+Qed.
+
+Lemma m_is_set_refines : forall s i, wf s -> m_is_set s i = sp_is_set (abs s) i.
+Proof.
+  intros s i Hwf. unfold m_is_set, sp_is_set. rewrite sm_get_abs. cbn [abs sp_cap].
+  destruct (Nat.ltb_spec i (length (m_state s))) as [Hi|Hi].
+  2:{ rewrite nth_error_None_ge; auto. }
+  destruct (cell_view s i Hwf Hi) as (m & v & ko & Em & Ev & Eko & [(-> & -> & Ec)|(Hm & k & -> & Hk & Ec)]);
+    rewrite Em, Ec; auto. destruct m; auto.
+Qed.
+
+Lemma m_is_cleared_refines : forall s i, wf s -> m_is_cleared s i = sp_is_cleared (abs s) i.
+Proof.
+  intros s i Hwf. unfold m_is_cleared, sp_is_cleared. rewrite sm_get_abs. cbn [abs sp_cap].
+  destruct (Nat.ltb_spec i (length (m_state s))) as [Hi|Hi].
+  2:{ rewrite nth_error_None_ge; auto. }
+  destruct (cell_view s i Hwf Hi) as (m & v & ko & Em & Ev & Eko & [(-> & -> & Ec)|(Hm & k & -> & Hk & Ec)]);
+    rewrite Em, Ec; auto. destruct m; auto; congruence.
+Qed.
+
+Lemma m_get_map_refines : forall s i k, wf s -> m_get_map s i k = sp_get_map (abs s) i k.
+Proof.
+  intros s i k Hwf. unfold m_get_map, sp_get_map. cbn [abs sp_cap]. fold (abs s).
+  destruct (Nat.ltb_spec i (length (m_state s))) as [Hi|Hi].
+  - rewrite (cur_val_abs s i) by auto. auto.
+  - destruct Hwf as (Hlv & _). rewrite nth_error_None_ge by lia. auto.
+Qed.
+
+Lemma m_iterate_map_refines : forall s i, wf s -> m_iterate_map s i = sp_iterate_map (abs s) i.
+Proof.
+  intros s i Hwf. unfold m_iterate_map, sp_iterate_map. cbn [abs sp_cap]. fold (abs s).
+  destruct (Nat.ltb_spec i (length (m_state s))) as [Hi|Hi].
+  - rewrite (cur_val_abs s i) by auto. auto.
+  - destruct Hwf as (Hlv & _). rewrite nth_error_None_ge by lia. auto.
+Qed.
+
+(* ---- iterate ---- *)
+Lemma iter_cells_collect : forall st ks vs,
+  length vs = length st -> length ks = length st ->
+  (forall j m, nth_error st j = Some m -> m <> MCleared -> exists k, nth_error ks j = Some (Some k)) ->
+  iter_cells ks vs st = map slot_entry (map snd (collect (cell3 vs st ks) 0 (length st))).
+Proof.
+  induction st as [|m st IH]; intros ks vs Hlv Hlk Hk.
+  - destruct ks, vs; cbn in *; auto; discriminate.
+  - destruct ks as [|ko ks]; [discriminate|]. destruct vs as [|v vs]; [discriminate|].
+    cbn [length collect]. cbn [iter_cells].
+    assert (Hsh : map snd (collect (cell3 (v :: vs) (m :: st) (ko :: ks)) 1 (length st)) =
+                  map snd (collect (cell3 vs st ks) 0 (length st))).
+    { apply collect_shift. intros j. unfold cell3. cbn [nth_error]. auto. }
+    assert (IH' : iter_cells ks vs st = map slot_entry (map snd (collect (cell3 vs st ks) 0 (length st)))).
+    { apply IH; cbn in *; try lia. intros j m' Hj Hm'. apply (Hk (S j) m'); auto. }
+    destruct m.
+    + destruct (Hk 0 MNotSet eq_refl ltac:(discriminate)) as [k Ek]. cbn in Ek. inversion Ek; subst.
+      unfold cell3 at 1. cbn [nth_error map snd]. rewrite Hsh, <- IH'. auto.
+    + destruct (Hk 0 MSet eq_refl ltac:(discriminate)) as [k Ek]. cbn in Ek. inversion Ek; subst.
+      unfold cell3 at 1. cbn [nth_error map snd]. rewrite Hsh, <- IH'. auto.
+    + unfold cell3 at 1. cbn [nth_error]. rewrite Hsh, <- IH'. auto.
+Qed.
+
+Lemma m_iterate_refines : forall s, wf s -> m_iterate s = sp_iterate (abs s).
+Proof.
+  intros s (Hlv & Hlk & Hz & Hk & Hki & Hf). unfold m_iterate, sp_iterate. f_equal.
+  rewrite iter_cells_collect; auto. cbn [abs sp_map]. rewrite map_map. auto.
+Qed.
+
+(* ---- add_map ---- *)
+Lemma zero_not_dict : forall ty d, zero_of ty <> VDict d.
+Proof. destruct ty; discriminate. Qed.
+
+Lemma new_index_nil : forall nx, new_index nx [] = (nx, (nx + 1)%N, []).
+Proof. auto. Qed.
+
+Lemma wf_with_alloc : forall s nx, wf s -> wf (with_alloc s nx []).
+Proof. intros s nx (Hlv & Hlk & Hz & Hk & Hki & Hf). unfold wf, with_alloc; cbn. auto 10. Qed.
+
+Lemma m_add_map_refines : forall s i k, wf s ->
+  wf (fst (m_add_map s i k)) /\ abs (fst (m_add_map s i k)) = fst (sp_add_map (abs s) i k) /\
+  snd (m_add_map s i k) = snd (sp_add_map (abs s) i k).
+Proof.
+  intros s i k Hwf. pose proof Hwf as (Hlv & Hlk & Hz & Hk & Hki & Hf).
+  unfold m_add_map, sp_add_map. rewrite sm_get_abs.
+  change (sp_ty (abs s)) with (m_ty s). change (sp_cap (abs s)) with (length (m_state s)).
+  change (sp_next (abs s)) with (m_next s). change (sp_default (abs s)) with (m_default s).
+  destruct (is_mapper (m_ty s)); [|cbn [fst snd]; auto].
+  rewrite Hf, new_index_nil.
+  destruct (Nat.ltb_spec i (length (m_state s))) as [Hi|Hi].
+  2:{ rewrite nth_error_None_ge by lia. cbn [fst snd]. split; [apply wf_with_alloc; auto|]. auto. }
+  destruct (cell_view s i Hwf Hi) as (m & v & ko & Em & Ev & Eko & [(-> & -> & Ec)|(Hm & k0 & -> & Hk0 & Ec)]);
+    rewrite Ev, Ec.
+  - assert (Hnd := zero_not_dict (m_ty s)).
+    destruct (zero_of (m_ty s)); try (cbn [fst snd]; split; [apply wf_with_alloc; auto|]; auto).
+    exfalso. eapply Hnd; eauto.
+  - cbn [sl_val sl_key sl_set].
+    destruct v; try (cbn [fst snd]; split; [apply wf_with_alloc; auto|]; auto).
+    cbn [fst snd]. split; [|split; [|reflexivity]].
+    + unfold wf, with_lists, with_alloc; cbn [m_values m_state m_keys m_ty m_free]. rewrite !length_upd.
+      split; [lia|]. split; [lia|]. split; [|split; [|split]]; auto.
+      intros j Hj. destruct (Nat.eq_dec j i) as [->|Hne]; [congruence|].
+      rewrite nth_error_upd_neq by auto. auto.
+    + apply abs_eq; auto; unfold with_lists, with_alloc; cbn [m_state m_values m_keys].
+      unfold cell_at at 1; cbn [m_state m_values m_keys].
+      apply abs_put; auto.
+      * intros j Hj. apply cell3_upd_neq with (i := i); auto. apply nth_error_upd_neq; auto.
+      * unfold cell3. rewrite Em, Eko, nth_error_upd_eq by lia. destruct m; congruence.
+Qed.
+
+(* ---- one step, whole histories ---- *)
+Theorem step_refines : forall s o, wf s ->
+  wf (fst (step s o)) /\ abs (fst (step s o)) = fst (spec_step (abs s) o) /\
+  snd (step s o) = snd (spec_step (abs s) o).
+Proof.
+  intros s o Hwf. destruct o; cbn [step spec_step fst snd].
+  - apply m_add_key_refines; auto.
+  - apply m_set_refines; auto.
+  - rewrite m_get_refines; auto.
+  - apply m_del_key_refines; auto.
+  - rewrite m_is_set_refines; auto.
+  - rewrite m_is_cleared_refines; auto.
+  - rewrite m_iterate_refines; auto.
+  - apply m_add_map_refines; auto.
+  - rewrite m_get_map_refines; auto.
+  - rewrite m_get_map_refines; auto.
+  - rewrite m_iterate_map_refines; auto.
+Qed.
+
+Lemma wf_step : forall s o, wf s -> wf (fst (step s o)).
+Proof. intros. apply step_refines; auto. Qed.
+
+Theorem run_refines : forall ops s, wf s ->
+  wf (fst (run s ops)) /\ abs (fst (run s ops)) = fst (spec_run (abs s) ops) /\
+  snd (run s ops) = snd (spec_run (abs s) ops).
+Proof.
+  induction ops as [|o ops IH]; intros s Hwf; cbn [run spec_run fst snd]; auto.
+  destruct (step_refines s o Hwf) as (Hwf1 & Habs1 & Hr1).
+  destruct (step s o) as [s1 r1]. destruct (spec_step (abs s) o) as [a1 r1'].
+  cbn [fst snd] in *. subst.
+  destruct (IH s1 Hwf1) as (Hwf2 & Habs2 & Hr2).
+  destruct (run s1 ops) as [s2 rs]. destruct (spec_run (abs s1) ops) as [a2 rs'].
+  cbn [fst snd] in *. subst. auto.
+Qed.
+
+Lemma abs_init : forall ty d, abs (m_init ty d) = sp_init ty d.
+Proof. auto. Qed.
+
+Theorem refinement : forall ty d ops,
+  results ty d ops = snd (spec_run (sp_init ty d) ops) /\
+  abs (final ty d ops) = fst (spec_run (sp_init ty d) ops).
+Proof.
+  intros. unfold results, final. rewrite <- abs_init.
+  destruct (run_refines ops (m_init ty d) (wf_init ty d)) as (_ & H1 & H2). auto.
+Qed.
+
+Lemma wf_after : forall ops s, wf s -> wf (after s ops).
+Proof. intros. apply run_refines; auto. Qed.
+Lemma wf_final : forall ty d ops, wf (final ty d ops).
+Proof. intros. apply wf_after, wf_init. Qed.
+
+(* ======================================================================================== *)
+(* 5. facts about the specification, transported to the model by the refinement *)
+
+Lemma reads_abs : forall s o, wf s -> reads s o = snd (spec_step (abs s) o).
+Proof. intros. apply step_refines; auto. Qed.
+Lemma abs_exec : forall s o, wf s -> abs (exec s o) = fst (spec_step (abs s) o).
+Proof. intros. apply step_refines; auto. Qed.
+Lemma wf_exec : forall s o, wf s -> wf (exec s o).
+Proof. intros. apply wf_step; auto. Qed.
+Lemma abs_after : forall s ops, wf s -> abs (after s ops) = fst (spec_run (abs s) ops).
+Proof. intros. apply run_refines; auto. Qed.
+
+(* what a successful write leaves behind *)
+Lemma sp_set_ok : forall a i k v v', i < sp_cap a -> arr_conv (sp_ty a) v = inl v' ->
+  let a' := fst (sp_set a i k v) in
+  snd (sp_set a i k v) = RUnit /\
+  sp_get a' i = RVal (read_as (sp_ty a) v') /\ sp_is_set a' i = RBool true /\
+  sp_is_cleared a' i = RBool false /\ sp_iterate_map a' i = map_keys v'.
+Proof.
+  intros a i k v v' Hi Hc. unfold sp_set. destruct (Nat.ltb_spec i (sp_cap a)); [|lia].
+  rewrite Hc. cbn [fst snd]. unfold sp_get, sp_is_set, sp_is_cleared, sp_iterate_map, cur_val, with_map.
+  cbn [sp_cap sp_map sp_ty]. destruct (Nat.ltb_spec i (sp_cap a)); [|lia].
+  rewrite sm_get_put_eq. cbn [sl_set sl_val]. auto.
+Qed.
+
+Lemma sp_add_base_fresh : forall a i k,
+  let a' := sp_add_base a i k in
+  i < sp_cap a' /\ sp_ty a' = sp_ty a /\
+  sp_get a' i = RNotSet /\ sp_is_set a' i = RBool false /\ sp_is_cleared a' i = RBool false.
+Proof.
+  intros a i k. unfold sp_add_base, sp_get, sp_is_set, sp_is_cleared. cbn [sp_cap sp_map sp_ty].
+  destruct (Nat.ltb_spec i (Nat.max (sp_cap a) (i + 1))); [|lia].
+  rewrite sm_get_put_eq. cbn [sl_set]. repeat split; auto.
+Qed.
+
+(* fresh after add_key *)
+Lemma fresh_nodefault : forall s i t, wf s -> m_ty s <> TMapper -> m_default s = VNone ->
+  let s1 := exec s (OAddKey i t) in
+  reads s1 (OGet i) = RNotSet /\ reads s1 (OIsSet i) = RBool false /\ reads s1 (OIsCleared i) = RBool false.
+Proof.
+  intros s i t Hwf Hty Hd s1. assert (Hwf1 : wf s1) by (apply wf_exec; auto).
+  rewrite !reads_abs by auto. unfold s1. rewrite abs_exec by auto.
+  cbn [spec_step fst snd]. unfold sp_add_key.
+  change (sp_ty (abs s)) with (m_ty s). change (sp_default (abs s)) with (m_default s).
+  destruct (m_ty s) eqn:E; try congruence; cbn [is_mapper]; rewrite Hd; cbn [fst];
+    apply sp_add_base_fresh.
+Qed.
+
+Lemma fresh_default : forall s i t v, wf s -> m_ty s <> TMapper -> m_default s <> VNone ->
+  arr_conv (m_ty s) (m_default s) = inl v ->
+  let s1 := exec s (OAddKey i t) in
+  reads s (OAddKey i t) = RUnit /\
+  reads s1 (OGet i) = RVal (read_as (m_ty s) v) /\ reads s1 (OIsSet i) = RBool true /\
+  reads s1 (OIsCleared i) = RBool false.
+Proof.
+  intros s i t v Hwf Hty Hd Hc s1. assert (Hwf1 : wf s1) by (apply wf_exec; auto).
+  rewrite !reads_abs by auto. unfold s1. rewrite abs_exec by auto.
+  cbn [spec_step fst snd]. unfold sp_add_key.
+  change (sp_ty (abs s)) with (m_ty s). change (sp_default (abs s)) with (m_default s).
+  destruct (sp_add_base_fresh (abs s) (N.to_nat i) (i, t)) as (Hcap & Hty' & _).
+  assert (Hok := sp_set_ok (sp_add_base (abs s) (N.to_nat i) (i, t)) (N.to_nat i) (i, t) (m_default s) v Hcap).
+  rewrite Hty' in Hok. change (sp_ty (abs s)) with (m_ty s) in Hok. specialize (Hok Hc). cbn zeta in Hok.
+  destruct (m_ty s) eqn:E; try congruence; cbn [is_mapper];
+    destruct (m_default s) eqn:E2; try congruence; tauto.
+Qed.
+
+Lemma fresh_mapper : forall s i t, wf s -> m_ty s = TMapper ->
+  let s1 := exec s (OAddKey i t) in
+  reads s (OAddKey i t) = RUnit /\
+  reads s1 (OGet i) = RVal (VDict []) /\ reads s1 (OIsSet i) = RBool true /\
+  reads s1 (OIsCleared i) = RBool false /\ reads s1 (OIterateMap i) = RKeys [].
+Proof.
+  intros s i t Hwf Hty s1. assert (Hwf1 : wf s1) by (apply wf_exec; auto).
+  rewrite !reads_abs by auto. unfold s1. rewrite abs_exec by auto.
+  cbn [spec_step fst snd]. unfold sp_add_key.
+  change (sp_ty (abs s)) with (m_ty s). rewrite Hty. cbn [is_mapper].
+  destruct (sp_add_base_fresh (abs s) (N.to_nat i) (i, t)) as (Hcap & Hty' & _).
+  assert (Hok := sp_set_ok (sp_add_base (abs s) (N.to_nat i) (i, t)) (N.to_nat i) (i, t) (VDict []) (VDict []) Hcap).
+  rewrite Hty' in Hok. change (sp_ty (abs s)) with (m_ty s) in Hok. rewrite Hty in Hok.
+  specialize (Hok eq_refl). cbn zeta in Hok. cbn [read_as map_keys map] in Hok. tauto.
+Qed.
+
+(* read your write *)
+Lemma read_your_write : forall s i t v v', wf s -> in_store s i -> arr_conv (m_ty s) v = inl v' ->
+  let s1 := exec s (OSet i t v) in
+  reads s (OSet i t v) = RUnit /\
+  reads s1 (OGet i) = RVal (read_as (m_ty s) v') /\ reads s1 (OIsSet i) = RBool true /\
+  reads s1 (OIsCleared i) = RBool false.
+Proof.
+  intros s i t v v' Hwf Hi Hc s1. assert (Hwf1 : wf s1) by (apply wf_exec; auto).
+  rewrite !reads_abs by auto. unfold s1. rewrite abs_exec by auto.
+  cbn [spec_step fst snd].
+  assert (Hok := sp_set_ok (abs s) (N.to_nat i) (i, t) v v' Hi Hc). cbn zeta in Hok. tauto.
+Qed.
+
+(* ---- the declared type and default never change; the index space only grows ---- *)
+Lemma sp_set_frame : forall a i k v,
+  let a' := fst (sp_set a i k v) in
+  sp_ty a' = sp_ty a /\ sp_default a' = sp_default a /\ sp_cap a' = sp_cap a /\ sp_next a' = sp_next a /\
+  forall j, j <> i -> sm_get (sp_map a') j = sm_get (sp_map a) j.
+Proof.
+  intros a i k v. unfold sp_set. destruct (i <? sp_cap a); [destruct (arr_conv (sp_ty a) v)|];
+    cbn [fst with_map sp_ty sp_default sp_cap sp_next sp_map]; repeat split; auto;
+    intros; apply sm_get_put_neq; auto.
+Qed.
+
+Lemma spec_step_frame : forall a o,
+  let a' := fst (spec_step a o) in
+  sp_ty a' = sp_ty a /\ sp_default a' = sp_default a /\ sp_cap a <= sp_cap a' /\
+  (sp_next a <= sp_next a')%N /\
+  forall j, op_index o <> Some j -> sm_get (sp_map a') (N.to_nat j) = sm_get (sp_map a) (N.to_nat j).
+Proof.
+  intros a o. destruct o; cbn [spec_step fst op_index]; try (repeat split; auto; lia).
+  - (* add_key *)
+    unfold sp_add_key.
+    assert (Hb : forall j, Some i <> Some j ->
+               sm_get (sp_map (sp_add_base a (N.to_nat i) (i, tag))) (N.to_nat j) = sm_get (sp_map a) (N.to_nat j)).
+    { intros j Hj. unfold sp_add_base; cbn [sp_map]. apply sm_get_put_neq.
+      intro E. apply N2Nat.inj in E. congruence. }
+    destruct (sp_set_frame (sp_add_base a (N.to_nat i) (i, tag)) (N.to_nat i) (i, tag) (VDict []))
+      as (H1 & H2 & H3 & H4 & H5).
+    destruct (sp_set_frame (sp_add_base a (N.to_nat i) (i, tag)) (N.to_nat i) (i, tag) (sp_default a))
+      as (G1 & G2 & G3 & G4 & G5).
+    assert (Hne : forall j, Some i <> Some j -> N.to_nat j <> N.to_nat i).
+    { intros j Hj E. apply N2Nat.inj in E. congruence. }
+    destruct (is_mapper (sp_ty a)).
+    + rewrite H1, H2, H3, H4. unfold sp_add_base at 1 2 3 4; cbn [sp_ty sp_default sp_cap sp_next].
+      repeat split; auto; try lia. intros j Hj. rewrite H5 by auto. auto.
+    + destruct (sp_default a) eqn:Ed;
+        try (rewrite G1, G2, G3, G4; unfold sp_add_base at 1 2 3 4; cbn [sp_ty sp_default sp_cap sp_next];
+             repeat split; auto; try lia; intros j Hj; rewrite G5 by auto; auto).
+      cbn [fst]. unfold sp_add_base at 1 2 3 4; cbn [sp_ty sp_default sp_cap sp_next].
+      repeat split; auto; lia.
+  - (* set *)
+    destruct (sp_set_frame a (N.to_nat i) (i, tag) v) as (H1 & H2 & H3 & H4 & H5).
+    rewrite H1, H2, H3, H4. repeat split; auto; try lia.
+    intros j Hj. apply H5. intro E. apply N2Nat.inj in E. congruence.
+  - (* del_key *)
+    unfold sp_del_key. destruct (N.to_nat i <? sp_cap a); cbn [fst with_map sp_ty sp_default sp_cap sp_next sp_map];
+      repeat split; auto; try lia.
+    intros j Hj. apply sm_get_del_neq. intro E. apply N2Nat.inj in E. congruence.
+  - (* add_map *)
+    unfold sp_add_map. destruct (is_mapper (sp_ty a)); [|cbn [fst]; repeat split; auto; lia].
+    destruct (N.to_nat i <? sp_cap a); [|cbn [fst sp_ty sp_default sp_cap sp_next sp_map]; repeat split; auto; lia].
+    destruct (sm_get (sp_map a) (N.to_nat i)) as [sl|];
+      [destruct (sl_val sl)|]; cbn [fst with_map sp_ty sp_default sp_cap sp_next sp_map];
+      repeat split; auto; try lia.
+    intros j Hj. apply sm_get_put_neq. intro E. apply N2Nat.inj in E. congruence.
+Qed.
+
+Lemma spec_run_frame : forall ops a,
+  let a' := fst (spec_run a ops) in
+  sp_ty a' = sp_ty a /\ sp_default a' = sp_default a /\ sp_cap a <= sp_cap a' /\
+  (sp_next a <= sp_next a')%N /\
+  forall j, Forall (fun o => op_index o <> Some j) ops ->
+            sm_get (sp_map a') (N.to_nat j) = sm_get (sp_map a) (N.to_nat j).
+Proof.
+  induction ops as [|o ops IH]; intros a; cbn [spec_run fst].
+  - repeat split; auto; lia.
+  - destruct (spec_step_frame a o) as (H1 & H2 & H3 & H4 & H5).
+    destruct (spec_step a o) as [a1 r1]. cbn [fst] in *.
+    destruct (IH a1) as (G1 & G2 & G3 & G4 & G5).
+    destruct (spec_run a1 ops) as [a2 rs]. cbn [fst] in *.
+    repeat split; try congruence; try lia.
+    intros j Hj. inversion Hj; subst. rewrite G5, H5; auto.
+Qed.
+
+Lemma ty_final : forall ty d ops, m_ty (final ty d ops) = ty /\ m_default (final ty d ops) = d.
+Proof.
+  intros. change (m_ty (final ty d ops)) with (sp_ty (abs (final ty d ops))).
+  change (m_default (final ty d ops)) with (sp_default (abs (final ty d ops))).
+  unfold final. fold (after (m_init ty d) ops). rewrite abs_after by apply wf_init.
+  destruct (spec_run_frame ops (abs (m_init ty d))) as (H1 & H2 & _). rewrite H1, H2. auto.
+Qed.
+
+(* ---- independence of indices ---- *)
+Lemma spec_read_depends : forall a a' j r, is_read_of j r ->
+  sp_ty a' = sp_ty a -> N.to_nat j < sp_cap a -> sp_cap a <= sp_cap a' ->
+  sm_get (sp_map a') (N.to_nat j) = sm_get (sp_map a) (N.to_nat j) ->
+  snd (spec_step a' r) = snd (spec_step a r).
+Proof.
+  intros a a' j r Hr Hty Hj Hcap Hget.
+  destruct r; cbn [is_read_of] in Hr; try contradiction; subst; cbn [spec_step snd];
+    unfold sp_get, sp_is_set, sp_is_cleared, sp_get_map, sp_iterate_map, cur_val;
+    rewrite ?Hget, ?Hty;
+    destruct (Nat.ltb_spec (N.to_nat j) (sp_cap a)); try lia;
+    destruct (Nat.ltb_spec (N.to_nat j) (sp_cap a')); try lia; auto.
+Qed.
+
+Lemma independence : forall s ops j r, wf s ->
+  Forall (fun o => op_index o <> Some j) ops -> in_store s j -> is_read_of j r ->
+  reads (after s ops) r = reads s r.
+Proof.
+  intros s ops j r Hwf Hops Hj Hr. rewrite !reads_abs by (auto; apply wf_after; auto).
+  rewrite abs_after by auto.
+  destruct (spec_run_frame ops (abs s)) as (H1 & H2 & H3 & H4 & H5).
+  apply spec_read_depends with (j := j); auto.
+Qed.
+
+(* ---- fresh again after del_key ; add_key ---- *)
+Lemma In_sm_put : forall m i x, In (i, x) (sm_put m i x).
+Proof.
+  induction m as [|[j y] m IH]; intros i x; cbn [sm_put]; [left; auto|].
+  destruct (i <? j); [left; auto|]. destruct (j =? i); [left; auto|]. right. apply IH.
+Qed.
+
+Lemma fresh_after_del_add : forall s i t, wf s -> m_ty s <> TMapper -> m_default s = VNone ->
+  let s2 := exec (exec s (ODelKey i)) (OAddKey i t) in
+  reads s2 (OGet i) = RNotSet /\ reads s2 (OIsSet i) = RBool false /\
+  reads s2 (OIsCleared i) = RBool false /\
+  exists l, reads s2 OIterate = RIter l /\ In (Some (i, t), zero_of (m_ty s), false) l.
+Proof.
+  intros s i t Hwf Hty Hd s2.
+  assert (Hwf1 : wf (exec s (ODelKey i))) by (apply wf_exec; auto).
+  assert (Hwf2 : wf s2) by (apply wf_exec; auto).
+  assert (Hty1 : m_ty (exec s (ODelKey i)) = m_ty s /\ m_default (exec s (ODelKey i)) = m_default s).
+  { change (m_ty (exec s (ODelKey i))) with (sp_ty (abs (exec s (ODelKey i)))).
+    change (m_default (exec s (ODelKey i))) with (sp_default (abs (exec s (ODelKey i)))).
+    rewrite abs_exec by auto. destruct (spec_step_frame (abs s) (ODelKey i)) as (H1 & H2 & _). auto. }
+  destruct Hty1 as [Hty1 Hd1].
+  destruct (fresh_nodefault (exec s (ODelKey i)) i t Hwf1) as (G1 & G2 & G3); try congruence.
+  fold s2 in G1, G2, G3. repeat split; auto.
+  rewrite reads_abs by auto. unfold s2. rewrite !abs_exec by auto.
+  cbn [spec_step fst snd]. unfold sp_add_key.
+  set (a1 := fst (sp_del_key (abs s) (N.to_nat i))).
+  assert (Ety : sp_ty a1 = m_ty s /\ sp_default a1 = m_default s).
+  { unfold a1, sp_del_key. destruct (N.to_nat i <? sp_cap (abs s)); auto. }
+  destruct Ety as [Ety Ed]. rewrite Ety, Ed, Hd.
+  assert (Hcv : cur_val a1 (N.to_nat i) = zero_of (m_ty s)).
+  { unfold cur_val. rewrite Ety. unfold a1, sp_del_key.
+    destruct (Nat.ltb_spec (N.to_nat i) (sp_cap (abs s))); cbn [fst with_map sp_map].
+    - rewrite sm_get_del_eq. auto.
+    - rewrite sm_get_abs, cell_at_ge; auto. }
+  destruct (m_ty s) eqn:E; try congruence; cbn [is_mapper fst];
+    (eexists; split; [reflexivity|]);
+    unfold sp_add_base; cbn [sp_map]; rewrite Hcv;
+    apply in_map_iff; eexists; (split; [|apply In_sm_put]); reflexivity.
+Qed.
+
+(* ---- iterate: exactly the non-cleared slots, in index order ---- *)
+Lemma abs_entry : forall s j sl, wf s -> In (j, sl) (sp_map (abs s)) ->
+  j < length (m_state s) /\ cell_at s j = Some sl /\ N.to_nat (fst (sl_key sl)) = j.
+Proof.
+  intros s j sl Hwf Hin. cbn [abs sp_map] in Hin. apply collect_In in Hin. destruct Hin as [Hj Hc].
+  split; [lia|]. split; auto.
+  destruct (cell_view s j Hwf ltac:(lia)) as (m & v & ko & Em & Ev & Eko & [(-> & -> & Ec)|(Hm & k & -> & Hk & Ec)]);
+    rewrite Ec in Hc; inversion Hc; subst; auto.
+Qed.
+
+Lemma iterate_exact : forall s, wf s ->
+  exists l, reads s OIterate = RIter l /\
+    StronglySorted lt (map entry_index l) /\
+    Forall (fun e => fst (fst e) <> None) l /\
+    (forall i, (exists t v b, In (Some (i, t), v, b) l) <-> reads s (OIsCleared i) = RBool false) /\
+    (forall i t v b, In (Some (i, t), v, b) l ->
+       reads s (OIsSet i) = RBool b /\
+       reads s (OGet i) = if b then RVal (read_as (m_ty s) v) else RNotSet).
+Proof.
+  intros s Hwf. exists (map (fun p => slot_entry (snd p)) (sp_map (abs s))).
+  split; [rewrite reads_abs by auto; reflexivity|].
+  assert (Hidx : map entry_index (map (fun p => slot_entry (snd p)) (sp_map (abs s))) = map fst (sp_map (abs s))).
+  { rewrite map_map. apply map_ext_in. intros [j sl] Hin. apply abs_entry in Hin; auto.
+    unfold entry_index, slot_entry. cbn [fst snd]. tauto. }
+  split; [rewrite Hidx; apply collect_sorted|].
+  split; [apply Forall_forall; intros e He; apply in_map_iff in He; destruct He as [p [<- _]];
+          unfold slot_entry; cbn; discriminate|].
+  split.
+  - intros i. rewrite reads_abs by auto. cbn [spec_step snd]. unfold sp_is_cleared.
+    change (sp_cap (abs s)) with (length (m_state s)). rewrite sm_get_abs. split.
+    + intros (t & v & b & Hin). apply in_map_iff in Hin. destruct Hin as [[j sl] [He Hin]].
+      apply abs_entry in Hin; auto. destruct Hin as (Hj & Hc & Hk).
+      destruct sl as [k0 b0 v0]. unfold slot_entry in He. cbn [snd sl_key sl_val sl_set] in He.
+      inversion He; subst k0 v0 b0. cbn [sl_key fst] in Hk.
+      subst j. destruct (Nat.ltb_spec (N.to_nat i) (length (m_state s))); [|lia]. rewrite Hc. auto.
+    + destruct (Nat.ltb_spec (N.to_nat i) (length (m_state s))) as [Hi|Hi]; [|discriminate].
+      destruct (cell_at s (N.to_nat i)) as [sl|] eqn:Ec; [|discriminate]. intros _.
+      destruct (cell_view s (N.to_nat i) Hwf Hi) as (m & v & ko & Em & Ev & Eko & [(-> & -> & Ec')|(Hm & k & -> & Hk & Ec')]);
+        rewrite Ec' in Ec; inversion Ec; subst.
+      destruct k as [i' t]. cbn [fst] in Hk. apply N2Nat.inj in Hk. subst i'.
+      exists t, v, (match m with MSet => true | _ => false end).
+      apply in_map_iff. exists (N.to_nat i, MkSlot (i, t) (match m with MSet => true | _ => false end) v).
+      split; [reflexivity|]. cbn [abs sp_map]. apply In_collect; auto. lia.
+  - intros i t v b Hin. apply in_map_iff in Hin. destruct Hin as [[j sl] [He Hin]].
+    apply abs_entry in Hin; auto. destruct Hin as (Hj & Hc & Hk).
+    destruct sl as [k0 b0 v0]. unfold slot_entry in He. cbn [snd sl_key sl_val sl_set] in He.
+    inversion He; subst k0 v0 b0. cbn [sl_key fst] in Hk.
+    subst j. rewrite !reads_abs by auto. cbn [spec_step snd]. unfold sp_is_set, sp_get.
+    change (sp_cap (abs s)) with (length (m_state s)). rewrite sm_get_abs, Hc.
+    destruct (Nat.ltb_spec (N.to_nat i) (length (m_state s))); [|lia]. auto.
+Qed.
+
+(* ---- the group-index allocator ---- *)
+Definition alloc_ok (a : spec) : Prop :=
+  forall j sl d k x, sm_get (sp_map a) j = Some sl -> sl_val sl = VDict d -> In (k, x) d -> (x < sp_next a)%N.
+
+Lemma dict_set_In : forall d k x k' y, In (k', y) (dict_set d k x) -> y = x \/ In (k', y) d.
+Proof.
+  induction d as [|[k0 y0] d IH]; intros k x k' y H; cbn [dict_set] in H.
+  - destruct H as [H|[]]. inversion H; auto.
+  - destruct (mkey_eqb k0 k).
+    + destruct H as [H|H]; [inversion H; auto|]. right; right; auto.
+    + destruct H as [H|H]; [right; left; auto|]. apply IH in H. destruct H; auto. right; right; auto.
+Qed.
+
+Lemma alloc_ok_put : forall a i sl nx, alloc_ok a -> (sp_next a <= nx)%N ->
+  (forall d k x, sl_val sl = VDict d -> In (k, x) d -> (x < nx)%N) ->
+  alloc_ok (MkSpec (sp_ty a) (sp_default a) (sp_cap a) (sm_put (sp_map a) i sl) nx).
+Proof.
+  intros a i sl nx Hok Hnx Hsl j sl' d k x Hg Hv Hin. cbn [sp_map sp_next] in *.
+  destruct (Nat.eq_dec j i) as [->|Hne].
+  - rewrite sm_get_put_eq in Hg. inversion Hg; subst. eauto.
+  - rewrite sm_get_put_neq in Hg by auto. specialize (Hok j sl' d k x Hg Hv Hin). lia.
+Qed.
+
+Lemma alloc_ok_set : forall a i k v, alloc_ok a -> sp_ty a = TMapper ->
+  (forall d, v = VDict d -> d = []) -> alloc_ok (fst (sp_set a i k v)).
+Proof.
+  intros a i k v Hok Hty Hv. unfold sp_set. destruct (i <? sp_cap a); auto.
+  rewrite Hty. cbn [arr_conv fst]. unfold with_map. apply alloc_ok_put; auto; [lia|].
+  cbn [sl_val]. intros d k0 x E Hin. apply Hv in E. subst. contradiction.
+Qed.
+
+Lemma alloc_ok_step : forall a o, alloc_ok a -> sp_ty a = TMapper -> writes_no_dict o ->
+  alloc_ok (fst (spec_step a o)).
+Proof.
+  intros a o Hok Hty Hw. destruct o; cbn [spec_step fst]; auto.
+  - unfold sp_add_key. rewrite Hty. cbn [is_mapper]. apply alloc_ok_set.
+    + unfold sp_add_base. apply alloc_ok_put; auto; [apply N.le_refl|]. cbn [sl_val]. unfold cur_val.
+      intros d k x E Hin. destruct (sm_get (sp_map a) (N.to_nat i)) as [sl|] eqn:Eg.
+      * eapply Hok; eauto.
+      * exfalso. eapply zero_not_dict; eauto.
+    + auto.
+    + intros d E. inversion E; auto.
+  - apply alloc_ok_set; auto. intros d E. subst. cbn in Hw. contradiction.
+  - unfold sp_del_key. destruct (N.to_nat i <? sp_cap a); auto. cbn [fst].
+    intros j sl d k x Hg Hv Hin. cbn [with_map sp_map sp_next] in *.
+    destruct (Nat.eq_dec j (N.to_nat i)) as [->|Hne].
+    + rewrite sm_get_del_eq in Hg. discriminate.
+    + rewrite sm_get_del_neq in Hg by auto. eauto.
+  - unfold sp_add_map. rewrite Hty. cbn [is_mapper].
+    assert (Hmono : alloc_ok (MkSpec (sp_ty a) (sp_default a) (sp_cap a) (sp_map a) (sp_next a + 1))).
+    { intros j sl d k0 x Hg Hv Hin. cbn [sp_map sp_next] in *. specialize (Hok j sl d k0 x Hg Hv Hin). lia. }
+    destruct (N.to_nat i <? sp_cap a); auto.
+    destruct (sm_get (sp_map a) (N.to_nat i)) as [sl|] eqn:Eg; auto.
+    destruct (sl_val sl) eqn:Ev; auto. cbn [fst]. unfold with_map. cbn [sp_ty sp_default sp_cap sp_map sp_next].
+    apply (alloc_ok_put a (N.to_nat i) _ (sp_next a + 1)%N); auto; [lia|].
+    cbn [sl_val]. intros d' k0 x E Hin. inversion E; subst.
+    apply dict_set_In in Hin. destruct Hin as [->|Hin]; [lia|].
+    specialize (Hok _ _ _ _ _ Eg Ev Hin). lia.
+Qed.
+
+Lemma alloc_ok_run : forall ops a, alloc_ok a -> sp_ty a = TMapper -> Forall writes_no_dict ops ->
+  alloc_ok (fst (spec_run a ops)).
+Proof.
+  induction ops as [|o ops IH]; intros a Hok Hty Hw; cbn [spec_run fst]; auto.
+  inversion Hw as [|o' ops' Hw1 Hw2]; subst.
+  assert (Hok1 := alloc_ok_step a o Hok Hty Hw1).
+  destruct (spec_step_frame a o) as (G1 & _).
+  destruct (spec_step a o) as [a1 r1]. cbn [fst] in *.
+  specialize (IH a1 Hok1 ltac:(congruence) Hw2).
+  destruct (spec_run a1 ops) as [a2 rs]. auto.
+Qed.
+
+Lemma add_map_fresh : forall ty d ops i k n, Forall writes_no_dict ops ->
+  reads (final ty d ops) (OAddMap i k) = RIdx n ->
+  forall j k', reads (final ty d ops) (OGetMap j k') <> RIdx n.
+Proof.
+  intros ty d ops i k n Hw Hadd j k'.
+  assert (Hwf := wf_final ty d ops). destruct (ty_final ty d ops) as [Hty _].
+  rewrite reads_abs in * by auto. cbn [spec_step snd] in *.
+  unfold sp_add_map in Hadd. change (sp_ty (abs (final ty d ops))) with (m_ty (final ty d ops)) in Hadd.
+  rewrite Hty in Hadd. destruct ty; cbn [is_mapper snd] in Hadd; try discriminate.
+  assert (Hok : alloc_ok (abs (final TMapper d ops))).
+  { unfold final. fold (after (m_init TMapper d) ops). rewrite abs_after by apply wf_init.
+    apply alloc_ok_run; auto. intros j0 sl d0 k0 x Hg. cbn in Hg. discriminate. }
+  set (a := abs (final TMapper d ops)) in *.
+  assert (Hn : n = sp_next a).
+  { destruct (N.to_nat i <? sp_cap a); [|discriminate].
+    destruct (sm_get (sp_map a) (N.to_nat i)) as [sl|]; [|discriminate].
+    destruct (sl_val sl); try discriminate. cbn [snd] in Hadd. inversion Hadd; auto. }
+  unfold sp_get_map, cur_val. destruct (N.to_nat j <? sp_cap a); [|discriminate].
+  destruct (sm_get (sp_map a) (N.to_nat j)) as [sl|] eqn:Eg.
+  - destruct (sl_val sl) eqn:Ev; cbn [map_read]; try discriminate.
+    destruct (dict_get d0 k') as [x|] eqn:Ed; [|discriminate].
+    intro E. inversion E; subst x.
+    assert (Hin : In (k', n) d0 \/ True) by auto.
+    assert (exists k0, In (k0, n) d0) as [k0 Hk0].
+    { clear -Ed. induction d0 as [|[k0 y] d0 IH]; cbn [dict_get] in Ed; [discriminate|].
+      destruct (mkey_eqb k0 k').
+      - inversion Ed; subst. exists k0. left; auto.
+      - destruct (IH Ed) as [k1 H]. exists k1. right; auto. }
+    specialize (Hok _ _ _ _ _ Eg Ev Hk0). lia.
+  - assert (Hz := zero_not_dict (sp_ty a)).
+    destruct (zero_of (sp_ty a)); cbn [map_read]; try discriminate. exfalso; eapply Hz; eauto.
+Qed.
+
+Lemma handed_out_sorted : forall ops a,
+  let rs := snd (spec_run a ops) in
+  StronglySorted N.lt (handed_out ops rs) /\ Forall (fun n => (sp_next a <= n)%N) (handed_out ops rs).
+Proof.
+  induction ops as [|o ops IH]; intros a; cbn [spec_run snd handed_out].
+  - split; constructor.
+  - destruct (spec_step_frame a o) as (_ & _ & _ & Hnx & _).
+    assert (Hidx : forall i k n, o = OAddMap i k -> snd (spec_step a o) = RIdx n ->
+                     n = sp_next a /\ sp_next (fst (spec_step a o)) = (n + 1)%N).
+    { intros i k n -> H. cbn [spec_step] in *. unfold sp_add_map in *.
+      destruct (is_mapper (sp_ty a)); [|discriminate].
+      destruct (N.to_nat i <? sp_cap a); [|discriminate].
+      destruct (sm_get (sp_map a) (N.to_nat i)) as [sl|]; [|discriminate].
+      destruct (sl_val sl); try discriminate. cbn [fst snd] in *. inversion H; subst. auto. }
+    destruct (spec_step a o) as [a1 r1]. cbn [fst snd] in *.
+    destruct (IH a1) as [IH1 IH2].
+    destruct (spec_run a1 ops) as [a2 rs]. cbn [snd] in *.
+    assert (Hrest : StronglySorted N.lt (handed_out ops rs) /\
+                    Forall (fun n => (sp_next a <= n)%N) (handed_out ops rs)).
+    { split; auto. eapply Forall_impl; [|apply IH2]. cbn. intros; lia. }
+    destruct o; cbn [handed_out]; auto.
+    destruct r1; auto.
+    destruct (Hidx i k n eq_refl eq_refl) as [-> Hn1].
+    split.
+    + constructor; auto. eapply Forall_impl; [|apply IH2]. cbn. intros; lia.
+    + constructor; [lia|]. eapply Forall_impl; [|apply IH2]. cbn. intros; lia.
+Qed.
+
+Lemma handed_out_increasing : forall ty d ops,
+  StronglySorted N.lt (handed_out ops (results ty d ops)).
+Proof.
+  intros. destruct (refinement ty d ops) as [-> _]. apply handed_out_sorted.
+Qed.
+
+(* ---- iterate_map: the mapped keys, in first-insertion order ---- *)
+Lemma zs_eqb_eq : forall a b : list Z, zs_eqb a b = true <-> a = b.
+Proof.
+  unfold zs_eqb. induction a as [|x a IH]; intros [|y b]; cbn [list_eqb]; split; intro H;
+    try discriminate; auto.
+  - apply andb_true_iff in H. destruct H as [H1 H2]. apply Z.eqb_eq in H1. apply IH in H2. congruence.
+  - inversion H; subst. rewrite Z.eqb_refl. cbn. apply IH. auto.
+Qed.
+Lemma mkey_eqb_eq : forall a b, mkey_eqb a b = true <-> a = b.
+Proof.
+  intros [x|x] [y|y]; cbn [mkey_eqb]; split; intro H; try discriminate; try congruence.
+  - apply Z.eqb_eq in H. congruence.
+  - inversion H. apply Z.eqb_refl.
+  - apply zs_eqb_eq in H. congruence.
+  - inversion H. apply zs_eqb_eq. auto.
+Qed.
+
+Definition dedup_step (acc : list mkey) (k : mkey) : list mkey :=
+  if existsb (fun k' => mkey_eqb k' k) acc then acc else acc ++ [k].
+
+Lemma dict_set_keys : forall d k x, map fst (dict_set d k x) = dedup_step (map fst d) k.
+Proof.
+  unfold dedup_step. induction d as [|[k0 y] d IH]; intros k x; cbn [dict_set map fst existsb]; auto.
+  destruct (mkey_eqb k0 k); cbn [orb map fst]; auto.
+  rewrite IH. destruct (existsb (fun k' => mkey_eqb k' k) (map fst d)); auto.
+Qed.
+
+Lemma existsb_mkey : forall acc k, existsb (fun k' => mkey_eqb k' k) acc = true <-> In k acc.
+Proof.
+  intros. rewrite existsb_exists. split.
+  - intros [x [Hin He]]. apply mkey_eqb_eq in He. subst. auto.
+  - intros H. exists k. split; auto. apply mkey_eqb_eq. auto.
+Qed.
+
+Lemma NoDup_snoc : forall (l : list mkey) x, NoDup l -> ~ In x l -> NoDup (l ++ [x]).
+Proof.
+  induction l as [|y l IH]; intros x Hnd Hx; cbn [app].
+  - constructor; [intros []|constructor].
+  - inversion Hnd; subst. constructor.
+    + rewrite in_app_iff. cbn [In]. intros [H|[H|[]]]; [auto|]. subst. apply Hx. left; auto.
+    + apply IH; auto. intro H. apply Hx. right; auto.
+Qed.
+
+Lemma dedup_fold_spec : forall ks acc, NoDup acc ->
+  NoDup (fold_left dedup_step ks acc) /\
+  (forall k, In k (fold_left dedup_step ks acc) <-> In k acc \/ In k ks).
+Proof.
+  induction ks as [|k0 ks IH]; intros acc Hnd; cbn [fold_left].
+  - split; auto. intros; cbn; tauto.
+  - assert (Hnd' : NoDup (dedup_step acc k0)).
+    { unfold dedup_step. destruct (existsb (fun k' => mkey_eqb k' k0) acc) eqn:E; auto.
+      apply NoDup_snoc; auto. intro Hx. apply existsb_mkey in Hx. congruence. }
+    destruct (IH _ Hnd') as [H1 H2]. split; auto.
+    intros k. rewrite H2. unfold dedup_step.
+    destruct (existsb (fun k' => mkey_eqb k' k0) acc) eqn:E.
+    + apply existsb_mkey in E. cbn [In]. split; [tauto|]. intros [H|[<-|H]]; auto.
+    + rewrite in_app_iff. cbn [In]. tauto.
+Qed.
+
+Lemma dedup_spec : forall ks, NoDup (dedup ks) /\ (forall k, In k (dedup ks) <-> In k ks).
+Proof.
+  intros ks. destruct (dedup_fold_spec ks [] (NoDup_nil _)) as [H1 H2]. split; auto.
+  intros k. unfold dedup. fold dedup_step. rewrite (H2 k). cbn; tauto.
+Qed.
+
+Lemma add_maps_spec : forall ks a i sl d, sp_ty a = TMapper -> N.to_nat i < sp_cap a ->
+  sm_get (sp_map a) (N.to_nat i) = Some sl -> sl_val sl = VDict d ->
+  sp_iterate_map (fst (spec_run a (map (OAddMap i) ks))) (N.to_nat i) =
+  RKeys (fold_left dedup_step ks (map fst d)).
+Proof.
+  induction ks as [|k ks IH]; intros a i sl d Hty Hi Hg Hv; cbn [map spec_run fst fold_left].
+  - unfold sp_iterate_map, cur_val. destruct (Nat.ltb_spec (N.to_nat i) (sp_cap a)); [|lia].
+    rewrite Hg, Hv. auto.
+  - cbn [spec_step]. unfold sp_add_map at 1. rewrite Hty. cbn [is_mapper].
+    destruct (Nat.ltb_spec (N.to_nat i) (sp_cap a)); [|lia]. rewrite Hg, Hv.
+    set (a1 := with_map _ _).
+    assert (Hty1 : sp_ty a1 = TMapper) by reflexivity.
+    assert (Hi1 : N.to_nat i < sp_cap a1) by exact Hi.
+    assert (Hg1 : sm_get (sp_map a1) (N.to_nat i) =
+                  Some (MkSlot (sl_key sl) (sl_set sl) (VDict (dict_set d k (sp_next a))))).
+    { unfold a1. cbn [with_map sp_map]. apply sm_get_put_eq. }
+    pose proof (IH a1 i _ _ Hty1 Hi1 Hg1 eq_refl) as IH1. rewrite dict_set_keys in IH1.
+    cbn [fst]. destruct (spec_run a1 (map (OAddMap i) ks)) as [a2 rs]. cbn [fst] in *. exact IH1.
+Qed.
+
+Lemma iterate_map_exact : forall s i t ks, wf s -> m_ty s = TMapper ->
+  reads (after (exec s (OAddKey i t)) (map (OAddMap i) ks)) (OIterateMap i) = RKeys (dedup ks).
+Proof.
+  intros s i t ks Hwf Hty.
+  assert (Hwf1 : wf (exec s (OAddKey i t))) by (apply wf_exec; auto).
+  rewrite reads_abs by (apply wf_after; auto). rewrite abs_after, abs_exec by auto.
+  cbn [spec_step snd]. cbn [spec_step fst]. unfold sp_add_key.
+  change (sp_ty (abs s)) with (m_ty s). rewrite Hty. cbn [is_mapper].
+  set (b := sp_add_base (abs s) (N.to_nat i) (i, t)).
+  destruct (sp_add_base_fresh (abs s) (N.to_nat i) (i, t)) as (Hcap & Hty' & _). fold b in Hcap, Hty'.
+  change (sp_ty (abs s)) with (m_ty s) in Hty'. rewrite Hty in Hty'.
+  destruct (sp_set_frame b (N.to_nat i) (i, t) (VDict [])) as (F1 & F2 & F3 & F4 & F5).
+  set (a1 := fst (sp_set b (N.to_nat i) (i, t) (VDict []))) in *.
+  assert (Hg : sm_get (sp_map a1) (N.to_nat i) = Some (MkSlot (i, t) true (VDict []))).
+  { unfold a1, sp_set. destruct (Nat.ltb_spec (N.to_nat i) (sp_cap b)); [|lia].
+    rewrite Hty'. cbn [arr_conv fst with_map sp_map]. apply sm_get_put_eq. }
+  rewrite (add_maps_spec ks a1 i _ [] ltac:(congruence) ltac:(lia) Hg eq_refl).
+  reflexivity.
+Qed.
+
+(* ======================================================================================== *)
+(* 6. the statements of props/C14.v, over every history from the empty store *)
+Lemma T_refinement_step : forall ty d ops o,
+  abs (exec (final ty d ops) o) = fst (spec_step (abs (final ty d ops)) o) /\
+  reads (final ty d ops) o = snd (spec_step (abs (final ty d ops)) o).
+Proof. intros. split; [apply abs_exec|apply reads_abs]; apply wf_final. Qed.
+
+Lemma add_key_returns : forall s i t v, wf s ->
+  (m_ty s = TMapper \/ m_default s = VNone \/ arr_conv (m_ty s) (m_default s) = inl v) ->
+  reads s (OAddKey i t) = RUnit.
+Proof.
+  intros s i t v Hwf H. rewrite reads_abs by auto. cbn [spec_step snd]. unfold sp_add_key.
+  change (sp_ty (abs s)) with (m_ty s). change (sp_default (abs s)) with (m_default s).
+  destruct (sp_add_base_fresh (abs s) (N.to_nat i) (i, t)) as (Hcap & Hty' & _).
+  change (sp_ty (abs s)) with (m_ty s) in Hty'.
+  destruct (is_mapper (m_ty s)) eqn:Em.
+  - destruct (sp_set_ok (sp_add_base (abs s) (N.to_nat i) (i, t)) (N.to_nat i) (i, t) (VDict []) (VDict []) Hcap)
+      as [Hr _]; auto.
+    rewrite Hty'. destruct (m_ty s); try discriminate. auto.
+  - destruct H as [H|[H|H]].
+    + rewrite H in Em. discriminate.
+    + rewrite H. auto.
+    + destruct (sp_set_ok (sp_add_base (abs s) (N.to_nat i) (i, t)) (N.to_nat i) (i, t) (m_default s) v Hcap)
+        as [Hr _]; [rewrite Hty'; auto|].
+      destruct (m_default s); auto.
+Qed.
+
+Lemma T_fresh_nodefault : forall ty ops i t, ty <> TMapper ->
+  let s1 := exec (final ty VNone ops) (OAddKey i t) in
+  reads (final ty VNone ops) (OAddKey i t) = RUnit /\
+  reads s1 (OGet i) = RNotSet /\ reads s1 (OIsSet i) = RBool false /\ reads s1 (OIsCleared i) = RBool false.
+Proof.
+  intros ty ops i t Hty s1. destruct (ty_final ty VNone ops) as [E1 E2].
+  split; [apply add_key_returns with (v := VNone); [apply wf_final|auto]|].
+  apply fresh_nodefault; [apply wf_final|congruence|auto].
+Qed.
+
+Lemma T_fresh_default : forall ty d ops i t v, ty <> TMapper -> d <> VNone -> arr_conv ty d = inl v ->
+  let s1 := exec (final ty d ops) (OAddKey i t) in
+  reads (final ty d ops) (OAddKey i t) = RUnit /\
+  reads s1 (OGet i) = RVal (read_as ty v) /\ reads s1 (OIsSet i) = RBool true /\
+  reads s1 (OIsCleared i) = RBool false.
+Proof.
+  intros ty d ops i t v Hty Hd Hc s1. destruct (ty_final ty d ops) as [E1 E2].
+  assert (H := fresh_default (final ty d ops) i t v (wf_final ty d ops)). rewrite E1, E2 in H. apply H; auto.
+Qed.
+
+Lemma T_fresh_mapper : forall d ops i t,
+  let s1 := exec (final TMapper d ops) (OAddKey i t) in
+  reads (final TMapper d ops) (OAddKey i t) = RUnit /\
+  reads s1 (OGet i) = RVal (VDict []) /\ reads s1 (OIsSet i) = RBool true /\
+  reads s1 (OIsCleared i) = RBool false /\ reads s1 (OIterateMap i) = RKeys [].
+Proof.
+  intros d ops i t s1. destruct (ty_final TMapper d ops) as [E1 E2].
+  apply fresh_mapper; [apply wf_final|auto].
+Qed.
+
+Lemma T_read_your_write : forall ty d ops i t v v', in_store (final ty d ops) i -> arr_conv ty v = inl v' ->
+  let s1 := exec (final ty d ops) (OSet i t v) in
+  reads (final ty d ops) (OSet i t v) = RUnit /\
+  reads s1 (OGet i) = RVal (read_as ty v') /\ reads s1 (OIsSet i) = RBool true /\
+  reads s1 (OIsCleared i) = RBool false.
+Proof.
+  intros ty d ops i t v v' Hi Hc s1. destruct (ty_final ty d ops) as [E1 E2].
+  assert (H := read_your_write (final ty d ops) i t v v' (wf_final ty d ops) Hi). rewrite E1 in H. apply H; auto.
+Qed.
+
+Lemma T_fresh_after_del_add : forall ty ops i t, ty <> TMapper ->
+  let s2 := exec (exec (final ty VNone ops) (ODelKey i)) (OAddKey i t) in
+  reads s2 (OGet i) = RNotSet /\ reads s2 (OIsSet i) = RBool false /\
+  reads s2 (OIsCleared i) = RBool false /\
+  exists l, reads s2 OIterate = RIter l /\ In (Some (i, t), zero_of ty, false) l.
+Proof.
+  intros ty ops i t Hty s2. destruct (ty_final ty VNone ops) as [E1 E2].
+  assert (H := fresh_after_del_add (final ty VNone ops) i t (wf_final ty VNone ops)). rewrite E1, E2 in H.
+  apply H; auto.
+Qed.
+
+Lemma T_independence : forall ty d ops more j r,
+  Forall (fun o => op_index o <> Some j) more -> in_store (final ty d ops) j -> is_read_of j r ->
+  reads (after (final ty d ops) more) r = reads (final ty d ops) r.
+Proof. intros. apply independence with (j := j); auto. apply wf_final. Qed.
+
+Lemma T_iterate_exact : forall ty d ops,
+  exists l, reads (final ty d ops) OIterate = RIter l /\
+    StronglySorted lt (map entry_index l) /\
+    Forall (fun e => fst (fst e) <> None) l /\
+    (forall i, (exists t v b, In (Some (i, t), v, b) l) <-> reads (final ty d ops) (OIsCleared i) = RBool false) /\
+    (forall i t v b, In (Some (i, t), v, b) l ->
+       reads (final ty d ops) (OIsSet i) = RBool b /\
+       reads (final ty d ops) (OGet i) = if b then RVal (read_as ty v) else RNotSet).
+Proof.
+  intros ty d ops. destruct (ty_final ty d ops) as [E1 E2].
+  destruct (iterate_exact (final ty d ops) (wf_final ty d ops)) as (l & H). rewrite E1 in H. eauto.
+Qed.
+
+Lemma T_iterate_map_exact : forall d ops i t ks,
+  reads (after (exec (final TMapper d ops) (OAddKey i t)) (map (OAddMap i) ks)) (OIterateMap i)
+  = RKeys (dedup ks).
+Proof.
+  intros. destruct (ty_final TMapper d ops) as [E1 E2]. apply iterate_map_exact; auto. apply wf_final.
+Qed.
+
+(* reads of an index inside the store never raise; del_key neither *)
+Lemma T_no_error_in_store : forall ty d ops i, in_store (final ty d ops) i ->
+  (forall e, reads (final ty d ops) (OGet i) <> RErr e) /\
+  (forall e, reads (final ty d ops) (OIsSet i) <> RErr e) /\
+  (forall e, reads (final ty d ops) (OIsCleared i) <> RErr e) /\
+  reads (final ty d ops) (ODelKey i) = RUnit.
+Proof.
+  intros ty d ops i Hi. assert (Hwf := wf_final ty d ops). rewrite !reads_abs by auto.
+  cbn [spec_step snd]. unfold sp_get, sp_is_set, sp_is_cleared, sp_del_key.
+  change (sp_cap (abs (final ty d ops))) with (length (m_state (final ty d ops))).
+  unfold in_store in Hi. destruct (Nat.ltb_spec (N.to_nat i) (length (m_state (final ty d ops)))); [|lia].
+  repeat split; auto; intros e; try discriminate.
+  destruct (sm_get _ _) as [sl|]; [destruct (sl_set sl)|]; discriminate.
 Qed.
